@@ -69,6 +69,7 @@ JudgeAtt(e) ==
     ELSE "ok"
 
 JudgeSpHp(e) == IF SpHp(e.N, e.sp, e.hp) THEN "ok" ELSE "C18:val2sphp"
+JudgeSpHp2(e) == IF SpHpTenths(e.M, e.sp, e.hp) THEN "ok" ELSE "C18:val2sphp-pair-does-not-recombine-to-the-value"
 
 (***************************************************************************)
 (* Helpers no listed property names (spec growth): verdicts "EXT:..." are  *)
@@ -104,7 +105,7 @@ JudgeAttSiz(e) == IF e.typ # SubSeq(e.t, 1, 1) THEN "EXT:atttyp"
 Judge(e) == CASE e.kind = "int" -> JudgeInt(e) [] e.kind = "dec" -> JudgeDec(e) [] e.kind = "opaque" -> JudgeOpaque(e)
               [] e.kind = "nom" -> JudgeNom(e) [] e.kind = "ck" -> JudgeCk(e) [] e.kind = "time" -> JudgeTime(e)
               [] e.kind = "bits" -> JudgeBits(e) [] e.kind = "prot" -> JudgeProt(e) [] e.kind = "att" -> JudgeAtt(e)
-              [] e.kind = "sphp" -> JudgeSpHp(e)
+              [] e.kind = "sphp" -> JudgeSpHp(e) [] e.kind = "sphp2" -> JudgeSpHp2(e)
               [] e.kind = "twos" -> JudgeTwos(e) [] e.kind = "esc" -> JudgeEsc(e) [] e.kind = "hext" -> JudgeHext(e)
               [] e.kind = "dop" -> JudgeDop(e) [] e.kind = "lookup" -> JudgeLookup(e) [] e.kind = "kfv" -> JudgeKfv(e)
               [] e.kind = "mon" -> JudgeMon(e) [] e.kind = "msgstr" -> JudgeMsgStr(e) [] e.kind = "msgcls" -> JudgeMsgCls(e)
